@@ -18,6 +18,8 @@ def rec (e : Eng) : Nat → Nat → St → St
   | 0, _, st => st
   | f+1, idx, st =>
     (deps e idx).foldl (fun st dep =>
+      -- a dependency already listed is not walked again (its own dependencies are listed before it)
+      if dep ∈ st.mark then st else
       let st' := rec e f dep st
       if dep ∈ st'.mark then st' else { dfs := st'.dfs ++ [dep], mark := dep :: st'.mark }) st
 
@@ -61,6 +63,7 @@ theorem rec_post (e : Eng) (hwf : WF e) :
     have key : ∀ (ds : List Nat) (s : St), (∀ d, d ∈ ds → d < idx) → Closed e s.dfs → MarkInv s →
         (∃ t, s.dfs = st.dfs ++ t) →
         let s' := ds.foldl (fun st dep =>
+          if dep ∈ st.mark then st else
           let st' := rec e f dep st
           if dep ∈ st'.mark then st' else { dfs := st'.dfs ++ [dep], mark := dep :: st'.mark }) s
         Closed e s'.dfs ∧ MarkInv s' ∧ (∃ t, s'.dfs = st.dfs ++ t) ∧ (∀ d, d ∈ ds → d ∈ s'.dfs) ∧ (∀ x, x ∈ s.dfs → x ∈ s'.dfs) := by
@@ -70,6 +73,16 @@ theorem rec_post (e : Eng) (hwf : WF e) :
       | cons d ds ihd =>
         intro s hd hc hm hext
         simp only [List.foldl_cons]
+        by_cases hpre : d ∈ s.mark
+        · simp only [hpre, if_true]
+          have r := ihd s (fun x hx => hd x (by simp [hx])) hc hm hext
+          obtain ⟨r1, r2, r3, r4, r5⟩ := r
+          refine ⟨r1, r2, r3, ?_, r5⟩
+          intro x hx
+          rcases List.mem_cons.mp hx with rfl | hx
+          · exact r5 _ ((hm _).mp hpre)
+          · exact r4 x hx
+        simp only [hpre, if_false]
         have hdl : d < f := by have := hd d (by simp); omega
         have p := ih d s hdl hc hm
         -- state after processing d
@@ -137,6 +150,7 @@ theorem rec_sound (e : Eng) : ∀ (f idx : Nat) (st : St) (y : Nat), y ∈ (rec 
     unfold rec at h
     have key : ∀ (ds : List Nat) (s : St), (∀ d, d ∈ ds → d ∈ deps e idx) →
         ∀ y, y ∈ (ds.foldl (fun st dep =>
+          if dep ∈ st.mark then st else
           let st' := rec e f dep st
           if dep ∈ st'.mark then st' else { dfs := st'.dfs ++ [dep], mark := dep :: st'.mark }) s).dfs →
         y ∈ s.dfs ∨ Reach e idx y := by
@@ -149,7 +163,10 @@ theorem rec_sound (e : Eng) : ∀ (f idx : Nat) (st : St) (y : Nat), y ∈ (rec 
         have hdi : d ∈ deps e idx := hd d (by simp)
         have hrest := ihd _ (fun z hz => hd z (by simp [hz])) y hy
         rcases hrest with h1 | h1
-        · -- y is in the state after processing d
+        · by_cases hpre : d ∈ s.mark
+          · simp only [hpre, if_true] at h1; exact Or.inl h1
+          simp only [hpre, if_false] at h1
+          -- y is in the state after processing d
           have hin : y ∈ (rec e f d s).dfs ∨ y = d := by
             by_cases hm : d ∈ (rec e f d s).mark
             · simp only [hm, if_true] at h1; exact Or.inl h1
